@@ -13,7 +13,7 @@ type Profile struct {
 	ForbidBytes  string   // bytes that must not occur in the document
 	ForbidSubstr []string // substrings that must not occur (checked on the final string and repaired)
 	ASCIIOnly    bool
-	NoHTML       bool // drop the HTML fragment class (for speed / focus)
+	NoHTML       bool     // drop the HTML fragment class (for speed / focus)
 	Extra        []string // extra tokens, weighted x3
 }
 
@@ -257,4 +257,23 @@ func Nest(t *rapid.T, p *Profile, maxBytes int, label string) []byte {
 		doc = append(doc, bytes.Repeat([]byte(cl), m)...)
 	}
 	return p.Repair(doc)
+}
+
+// LineAtoms returns the line vocabulary of the bounded-exhaustive
+// line-structured tier: indentation x line content. The reduced set is used
+// for triples in the quick tier.
+func LineAtoms(full bool) []string {
+	indents := []string{"", " ", "   ", "    ", "\t", " \t", "\t "}
+	contents := []string{"", "-", "- a", "+", "1.", "1. a", "> a", ">", "```", "~~~", "a", "=", "---", "# a", "<div>", "<!--", "-->", "[a]: b", "|a|", "|-|", ": a", "[^1]: a", "* * *", "a  ", "\\"}
+	if !full {
+		indents = []string{"", "  ", "    ", "\t", "\t "}
+		contents = []string{"", "-", "+ a", "1.", ">", "~~~", "a", "=", "<!--", "|-|"}
+	}
+	var out []string
+	for _, in := range indents {
+		for _, c := range contents {
+			out = append(out, in+c)
+		}
+	}
+	return out
 }
